@@ -43,11 +43,29 @@ class Ctx:
     minimums: dict[str, int] = field(default_factory=dict)
     t0: float = field(default_factory=time.time)
     _seen: set = field(default_factory=set)
+    _established: list = field(default_factory=list)
 
     # -- recording ----------------------------------------------------------
+    def established(self, rule_prefixes, construct_prefix: str, by: str) -> None:
+        """A rule that decides the *values* computed by a construct was discharged on every case (`by`): what the syntactic
+        rules of the listed families would say about the way the same construct is written is no longer a verdict - they
+        only decide when the value rule is outside its interpreter.  Their obligations are recorded as established."""
+        self._established.append((tuple(rule_prefixes), construct_prefix, by))
+
+    def _is_established(self, rule: str, construct: str) -> str | None:
+        for prefixes, cp, by in self._established:
+            if construct.startswith(cp) and any(rule.startswith(p_) for p_ in prefixes):
+                return by
+        return None
+
     def ob(self, rule: str, construct: str, ok: bool | str, detail: str = "", site: str = "",
            nontrivial: bool = True) -> bool:
         verdict = ok if isinstance(ok, str) else (PASS if ok else FAIL)
+        if verdict == FAIL:
+            by = self._is_established(rule, construct)
+            if by is not None:
+                verdict, nontrivial = PASS, False
+                detail = f"established by {by} (values on every case); the syntactic rule alone would say: {detail}"
         key = (rule, construct, verdict, detail)
         if key in self._seen:          # the same obligation reached along another path
             return verdict == PASS
@@ -56,6 +74,10 @@ class Ctx:
         return verdict == PASS
 
     def unverified(self, rule: str, construct: str, detail: str, site: str = "") -> None:
+        by = self._is_established(rule, construct)
+        if by is not None:
+            self.obs.append(Ob(rule, construct, PASS, f"established by {by} (values on every case); the syntactic rule does not recognise the form: {detail}", site, False))
+            return
         self.obs.append(Ob(rule, construct, UNVERIFIED, detail, site, False))
 
     def guard(self, rule: str, construct: str, fn, site: str = "") -> Any:
